@@ -113,6 +113,33 @@ def run(tier, replay_file=None):
             R.violation(bad["clause"], bad)
             if len(R.violations) >= 20:
                 break
+    # (e) the process lost in the middle of writing an instance's state (run-step answered by nobody), at each truncation class of
+    # the text written so far; then the session goes on, or a new one is begun, with and without a further loss: every history
+    SHAPE_E = ('MC_WriteLost == LET n == Len(hist\') h == hist\'[n] IN\n'
+               '   /\\ (n = 1 => h.op = "Start") /\\ (n = 2 => h.op = "Begin" /\\ h.status = 200) /\\ (n \\in {3, 4} => h.op = "Step")\n'
+               '   /\\ (n = 5 => h.op = "StepLost") /\\ (n = 6 => h.op \\in {"Begin", "Step"}) /\\ (n = 7 => h.op \\in {"Crash", "Step"})\n'
+               '   /\\ (n = 8 => h.op \\in {"Step", "Results"})\n')
+    h5, _ = gen.histories("Server", consts('{"i1"}', 4, DEV, '{"Start","Begin","Step","Results","Crash","Tear","StepLost"}', kv='{0,2}', sv='{3}', scen='{"base"}',
+                                           timeouts='{3}', ticks='{1}'), 8, defs=SHAPE_E, extra_cfg={"action_constraints": ["MC_WriteLost"]})
+    R.cov["process_lost_inside_a_write_histories"] = len(h5)
+    if quick:
+        import random as _r3
+        h5 = _r3.Random(common.seed() + 4).sample(h5, min(len(h5), 200))
+    lost_placed = 0
+    for hist in h5:
+        known, obs = [], []
+        bad = srv_replay.replay(hist, stop=4, adapter=True, base_constants=True, known=known, probe=True, observe=obs)
+        R.add("traces_validated_against_impl")
+        lost_placed += sum(1 for o in obs if o[1] == "StepLost")
+        crashes += sum(1 for x in hist if x["op"] in ("Crash", "StepLost"))
+        for k in known:
+            known_total[k[0]] = known_total.get(k[0], 0) + 1
+        if bad:
+            bad["family"] = "process lost inside the externalisation of a run-step"
+            R.violation(bad["clause"], bad)
+            if len(R.violations) >= 20:
+                break
+    R.cov["write_faults_placed"] = lost_placed
     if not quick and h2:
         # torn write at every byte offset of the state file, for one history with a Tear followed by a Crash
         for hist in h2:
